@@ -670,6 +670,9 @@ UNSUPPORTED_KINDS = ["rank5", "rank0", "batch", "big_stride", "big_kernel", "int
 def fam_unsupported(rng, kind=None):
     """operators just outside / far outside what the NPU supports, plus odd ranks and dtypes (C13, C16, C11)"""
     net = Net("unsupported")
+    follow = None
+    if kind and "+" in kind:          # "pool_stride4+logistic": fix the operator that follows as well
+        kind, follow = kind.split("+", 1)
     kind = kind or rng.choice(UNSUPPORTED_KINDS)
     net.name = "unsupported_" + kind
     dt = "int8"
@@ -733,8 +736,8 @@ def fam_unsupported(rng, kind=None):
         net.op("FULLY_CONNECTED", [x, wt, None], [y], dict(FusedActivationFunction=0))
     # follow by supported operators most of the time, so CPU and NPU operators are mixed and the rewrites that
     # look at a CPU-resident producer (activation fusing, LUT conversion, reshape/concat bypass) are exercised
-    if len(y.shape) == 4 and y.dtype in ("int8", "uint8") and y.scale is not None and rng.random() < 0.8:
-        nxt = rng.choice(["conv", "logistic", "tanh", "relu", "lrelu", "hswish", "add_self", "maxpool"])
+    if len(y.shape) == 4 and y.dtype in ("int8", "uint8") and y.scale is not None and (follow or rng.random() < 0.8):
+        nxt = follow or rng.choice(["conv", "logistic", "tanh", "relu", "lrelu", "hswish", "add_self", "maxpool"])
         if nxt == "conv":
             y = conv2d(net, rng, y, 4, (1, 1))
         elif nxt == "logistic":
@@ -751,7 +754,7 @@ def fam_unsupported(rng, kind=None):
             y = elementwise(net, rng, "ADD", y, y)
         elif min(y.shape[1:3]) >= 2:
             y = pool(net, rng, y, "MAX_POOL_2D", (2, 2), (2, 2), "VALID")
-        if rng.random() < 0.4:
+        if rng.random() < 0.4 and not follow:
             y = cpu_only(net, rng, y, "CUSTOM")
     net.output(y)
     return net
